@@ -1,59 +1,25 @@
-(** C17 — property theorems only.  Each is closed by [exact] of a lemma from Proofs.v and
-    followed by [Print Assumptions]; statements are pinned again in Pins.v. *)
+(** C17 — property theorems only.  Each is closed by [exact] of a lemma from Proofs.v /
+    FixedProofs.v / SinkProofs.v and followed by [Print Assumptions]; statements are pinned
+    again in Pins.v.  [Cur] is the transliteration of the code as it is (since /repo 6f9363a
+    and 2fd7ca2); [Old] the transliteration of the code before, kept for the `_old_` lemmas. *)
 From Coq Require Import List NArith Bool.
 From JrV Require Import C17.Model C17.Proofs C17.SinkProofs C17.FixedProofs.
 Import ListNotations.
 Open Scope N_scope.
 
-(** offset_to_location AS IT IS in the code: for every file, every query (any number of byte
-    offsets, any order) outside the two known classes — no non-ASCII character among the first
-    max(offsets) characters, no offset twice — every answer carries the offset, the specified
-    line, the specified column (+1, the printer subtracts it) and the specified line start.
-    Non-ASCII text AFTER the last queried offset is allowed. *)
-Theorem C17_loc_restricted :
+(** offset_to_location: for EVERY file — any mix of 1-4 byte characters — and EVERY query whose
+    offsets are character boundaries (any number, any order, duplicates, end of file included),
+    every answer carries the offset, the specified line (1 + newline bytes before it), the
+    specified column (code points since the line start; +1, the printers subtract it) and the
+    specified line start. *)
+Theorem C17_loc_general :
   forall file offs i o,
-    known_multibyte file offs = false -> known_dup offs = false ->
-    (forall o', In o' offs -> o' <= blen file) ->
+    (forall o', In o' offs -> exists k, (k <= length file)%nat /\ o' = blen (firstn k file)) ->
     nth_error offs i = Some o ->
     core (nth i (offset_to_location Cur file offs) zero_loc) =
     (o, spec_line (encode file) o, spec_col (encode file) o + 1, spec_line_start (encode file) o).
-Proof. exact loc_cur_restricted. Qed.
-Print Assumptions C17_loc_restricted.
-
-Theorem C17_loc_ascii :
-  forall file offs i o,
-    forallb is_ascii file = true -> NoDup offs ->
-    (forall o', In o' offs -> o' <= N.of_nat (length file)) ->
-    nth_error offs i = Some o ->
-    core (nth i (offset_to_location Cur file offs) zero_loc) =
-    (o, spec_line file o, spec_col file o + 1, spec_line_start file o).
-Proof. exact loc_cur_ascii_file. Qed.
-Print Assumptions C17_loc_ascii.
-
-(** FINDING C17-loc-char-index-vs-byte-offset: the unrestricted statement is false. *)
-Theorem C17_loc_general_refuted :
-  exists file offs i o,
-    NoDup offs /\ (forall o', In o' offs -> o' <= blen file) /\ nth_error offs i = Some o /\
-    known_multibyte file offs = true /\
-    c_line (nth i (offset_to_location Cur file offs) zero_loc) <> spec_line (encode file) o.
-Proof. exact loc_multibyte_refuted. Qed.
-Print Assumptions C17_loc_general_refuted.
-
-(** ... and a span behind enough multi-byte characters is not located at all (printed `L:0-L:0`). *)
-Theorem C17_loc_unmatched_refuted :
-  exists file offs, NoDup offs /\ (forall o', In o' offs -> o' <= blen file) /\
-    offset_to_location Cur file offs = [zero_loc; zero_loc].
-Proof. exact loc_multibyte_unmatched_refuted. Qed.
-Print Assumptions C17_loc_unmatched_refuted.
-
-(** FINDING C17-loc-duplicate-offsets *)
-Theorem C17_loc_duplicates_refuted :
-  exists file offs i o,
-    forallb is_ascii file = true /\ (forall o', In o' offs -> o' <= blen file) /\
-    nth_error offs i = Some o /\ known_dup offs = true /\
-    c_line (nth i (offset_to_location Cur file offs) zero_loc) <> spec_line (encode file) o.
-Proof. exact loc_duplicates_refuted. Qed.
-Print Assumptions C17_loc_duplicates_refuted.
+Proof. exact loc_general. Qed.
+Print Assumptions C17_loc_general.
 
 (** print_code_location shows the start line and the 1-based start column of a one-line span *)
 Theorem C17_print_span :
@@ -69,17 +35,27 @@ Theorem C17_print_span_refuted :
 Proof. exact print_multiline_refuted. Qed.
 Print Assumptions C17_print_span_refuted.
 
-(** mapper + printer: the `L:C` of a trace line is the specified line and column of the first
-    byte of the construct *)
+(** mapper + CompactFormat printer: the `L:C` of a trace line is the specified line and column
+    of the first byte of the construct, whatever precedes it, for every one-line span
+    (empty spans included) *)
 Theorem C17_reported_position :
   forall file a b,
-    known_multibyte file [a; b] = false -> a <> b -> a <= blen file -> b <= blen file ->
+    boundary file a -> boundary file b ->
     spec_line (encode file) a = spec_line (encode file) b ->
     let locs := offset_to_location Cur file [a; b] in
     let p := print_loc (nth 0 locs zero_loc) (nth 1 locs zero_loc) in
     printed_line p = spec_line (encode file) a /\ printed_col p = spec_col (encode file) a.
 Proof. exact reported_position. Qed.
 Print Assumptions C17_reported_position.
+
+(** mapper + JsFormat printer (libjsonnet trace format 1): line and column of the construct *)
+Theorem C17_jsformat_position :
+  forall file a b,
+    boundary file a -> boundary file b ->
+    let locs := offset_to_location Cur file [a; b] in
+    print_js (nth 0 locs zero_loc) = (spec_line (encode file) a, spec_col (encode file) a).
+Proof. exact jsformat_position. Qed.
+Print Assumptions C17_jsformat_position.
 
 (** the token loop over ANY one-token matcher honouring logos' contract tiles the input *)
 Theorem C17_lex_tiles :
@@ -108,26 +84,30 @@ Theorem C17_sink_lossless :
 Proof. exact (@sink_lossless). Qed.
 Print Assumptions C17_sink_lossless.
 
-(** The REPAIRED offset_to_location (fixes/C17-offset-to-location.diff; model [Fixed]): for every
-    file — any mix of 1-4 byte characters — and every query whose offsets are character
-    boundaries (duplicates, any order, end of file included), every answer is the specified
-    one.  This is the theorem that is tied to the code once the fix has landed (the check
-    detects which model the code follows). *)
-Theorem C17_loc_fixed_general :
-  forall file offs i o,
-    (forall o', In o' offs -> exists k, (k <= length file)%nat /\ o' = blen (firstn k file)) ->
-    nth_error offs i = Some o ->
-    core (nth i (offset_to_location Fixed file offs) zero_loc) =
-    (o, spec_line (encode file) o, spec_col (encode file) o + 1, spec_line_start (encode file) o).
-Proof. exact loc_fixed_general. Qed.
-Print Assumptions C17_loc_fixed_general.
+(* ---------------------------------------------------------------------------------------
+   HISTORICAL: statements about [Old], the transliteration of offset_to_location BEFORE
+   /repo 6f9363a.  They say why that commit was needed; nothing here is tied to the code. *)
 
-(** FINDING C17-jsformat-column-plus-one: JsFormat (libjsonnet trace format 1) prints the right
-    line but, for EVERY located frame, a column one larger than the column of the construct. *)
-Theorem C17_jsformat_column_refuted :
-  forall file a b,
-    known_multibyte file [a; b] = false -> a <> b -> a <= blen file -> b <= blen file ->
-    let locs := offset_to_location Cur file [a; b] in
-    print_js (nth 0 locs zero_loc) = (spec_line (encode file) a, spec_col (encode file) a + 1).
-Proof. exact jsformat_column. Qed.
-Print Assumptions C17_jsformat_column_refuted.
+(** was FINDING C17-loc-char-index-vs-byte-offset *)
+Theorem C17_loc_old_general_refuted :
+  exists file offs i o,
+    NoDup offs /\ (forall o', In o' offs -> o' <= blen file) /\ nth_error offs i = Some o /\
+    known_multibyte file offs = true /\
+    c_line (nth i (offset_to_location Old file offs) zero_loc) <> spec_line (encode file) o.
+Proof. exact loc_old_multibyte_refuted. Qed.
+Print Assumptions C17_loc_old_general_refuted.
+
+Theorem C17_loc_old_unmatched_refuted :
+  exists file offs, NoDup offs /\ (forall o', In o' offs -> o' <= blen file) /\
+    offset_to_location Old file offs = [zero_loc; zero_loc].
+Proof. exact loc_old_unmatched_refuted. Qed.
+Print Assumptions C17_loc_old_unmatched_refuted.
+
+(** was FINDING C17-loc-duplicate-offsets *)
+Theorem C17_loc_old_duplicates_refuted :
+  exists file offs i o,
+    forallb is_ascii file = true /\ (forall o', In o' offs -> o' <= blen file) /\
+    nth_error offs i = Some o /\ known_dup offs = true /\
+    c_line (nth i (offset_to_location Old file offs) zero_loc) <> spec_line (encode file) o.
+Proof. exact loc_old_duplicates_refuted. Qed.
+Print Assumptions C17_loc_old_duplicates_refuted.
